@@ -217,7 +217,9 @@ func main() {
 		statsPath := fs.String("stats", "", "output: generator statistics (json)")
 		corpus := fs.String("corpus", "", "corpus file: case lines run first")
 		filter := fs.String("filter", "", "only run case lines with this prefix")
+		budget := fs.Int("budget", 0, "seconds after which the remaining generated cases are not run (0 = none)")
 		_ = fs.Parse(os.Args[2:])
+		started := time.Now()
 		s, ok := suites[*suite]
 		if !ok {
 			fmt.Fprintln(os.Stderr, "unknown suite", *suite)
@@ -238,6 +240,10 @@ func main() {
 		hung := 0
 		g.emit = func(line string) {
 			if *filter != "" && !strings.HasPrefix(line, *filter) {
+				return
+			}
+			if *budget > 0 && time.Since(started) > time.Duration(*budget)*time.Second {
+				g.Count("not-run-over-budget")
 				return
 			}
 			if hung >= 3 {
